@@ -1,6 +1,9 @@
 """C07 — call counting starts from zero for every installation."""
 import random
-import vlib, histlib
+import subprocess
+import vlib, histlib, reallib
+
+SITE_N = {0: 0, 1: 1, 2: 2, 3: 3, 5: 2, 7: 7}
 
 def multi_history(r, hid, max_lifetimes=6):
     """the same fake!(.., times: N) call sites evaluated in several consecutive lifetimes"""
@@ -19,7 +22,7 @@ def multi_history(r, hid, max_lifetimes=6):
 def run(res, tier, seed, replay):
     res.cov["rule"] = ("real: 2-6 (quick) / 2-20 (thorough) consecutive injector lifetimes in ONE process that evaluate the same 1-3 fake!(.., times: N) call sites (N in 0..3) with 0-5 calls each; per lifetime the outcome of every call and of scope exit "
                        "must be what the counting rule gives for THAT lifetime's calls alone; the extracted lifetime machine (counters persisting across lifetimes, reset at installation) runs the same history; "
-                       "distinct = distinct (lifetimes, op-kind set, repeated-target flag)")
+                       "and two lifetimes of two THREADS built by the same line, the second begun while the first is alive and has made none of its calls (each verdict depends on its own calls only); distinct = distinct (lifetimes, op-kind set, repeated-target flag) / (N, calls-N of each lifetime)")
     res.cov["trusted_base"] = vlib.TRUSTED_COMMON + ["the `static FAKE_COUNTER` of a fake! call site is modelled as one counter per site id persisting across lifetimes"]
     res.assumptions = ["one evaluation of a call site per lifetime (two live installations sharing one static are outside the statement)"]
     vlib.proof_stage(res, "C07", thorough=(tier == "thorough"))
@@ -30,3 +33,35 @@ def run(res, tier, seed, replay):
     ml = 6 if tier == "quick" else 20
     histlib.check_histories(res, "c06", 120 if tier == "quick" else 3000, seed + 7, "full", extra_lines=corpus,
                             gen=lambda rr, hid, max_lifetimes=ml: multi_history(rr, hid, ml), novals=True, nodiff=True)
+
+    # lifetimes of two THREADS built by the same line: B begins (new injector, will_execute of the site) while A's lifetime is alive and
+    # has not made its calls yet; the process-wide guard orders the two lifetimes, and each one's verdict depends on its own calls only
+    exe = reallib.build(res)
+    if not exe: return
+    r = random.Random(seed + 77)
+    cases = []
+    for site, N in SITE_N.items():
+        for rep in range(2 if tier == "quick" else 12):
+            ka = r.choice([N, N, max(N - 1, 0), N + 1]); kb = r.choice([N, N, N + 1, max(N - 1, 0)])
+            cases.append((f"o{len(cases)}", site, N, ka, kb, r.choice([5, 20, 40])))
+    lines = [f"{c[0]} overlap {c[1]} {c[3]} {c[4]} {c[5]}" for c in cases]
+    shards = [lines[i::8] for i in range(8)]
+    procs = [subprocess.Popen([exe, "count"], stdin=subprocess.PIPE, stdout=subprocess.PIPE, text=True) for _ in shards]
+    outs = [p.communicate("\n".join(sh) + "\n")[0] for p, sh in zip(procs, shards)]
+    obs = {}
+    for o in outs:
+        for l in o.split("\n"):
+            t = l.split()
+            if len(t) >= 2: obs.setdefault(t[0], {})[t[1]] = t[2:]
+    def verdict(N, k): return dict(admitted=str(min(k, N)), overcalled=str(k - min(k, N)), other="0", exit="normal" if k == N else f"panic:count:{N}:{k}")
+    for cid, site, N, ka, kb, d in cases:
+        case = dict(id=cid, site=site, N=N, calls_in_first_lifetime=ka, calls_in_second_lifetime=kb, second_thread_starts_after_ms=0, first_holds_ms=d)
+        o = obs.get(cid, {})
+        if "OVERLAP" not in o or o.get("CHILD", ["?"])[0] != "exit:0":
+            res.violation("two-thread run of one call site did not complete (crash, abort or deadlock)", case, o); continue
+        got = {x.split("=", 1)[0]: dict(y.split("=", 1) for y in x.split("=", 1)[1].split(",")) for x in o["OVERLAP"]}
+        for who, k in (("a", ka), ("b", kb)):
+            if got[who] != verdict(N, k):
+                res.violation(f"lifetime {'A (first)' if who == 'a' else 'B (second, begun on another thread while A was alive)'} made {k} matching calls with times: {N} and saw {got[who]}; its own calls alone give {verdict(N, k)}", case, o)
+    res.cov["evaluations"] += len(cases); res.cov["traces_validated_against_impl"] += len(cases); res.cov["distinct_nontrivial"] += len({(c[2], c[3] - c[2], c[4] - c[2]) for c in cases})
+    res.extra["two_thread_cases"] = len(cases)
